@@ -1072,6 +1072,21 @@ func genStanza(t *rapid.T, stanzaNS string, k kind, typ string) *elem {
 		if n > 0 && rapid.IntRange(0, 3).Draw(t, "textAfter") == 0 {
 			e.kids = append(e.kids, node{text: genText(t)})
 		}
+		// a bulky payload (a long list, a big form): hundreds or thousands of
+		// tokens inside one of the children
+		if n > 0 && rapid.IntRange(0, 9).Draw(t, "bulky") == 0 {
+			var els []*elem
+			for _, k := range e.kids {
+				if k.el != nil {
+					els = append(els, k.el)
+				}
+			}
+			target := els[rapid.IntRange(0, len(els)-1).Draw(t, "bulkyKid")]
+			m := rapid.SampledFrom([]int{40, 84, 85, 86, 170, 341, 342, 700, 1400}).Draw(t, "bulkyItems")
+			for i := 0; i < m; i++ {
+				target.kids = append(target.kids, node{el: &elem{local: "i", inherit: true, kids: []node{{text: "v"}}}})
+			}
+		}
 	}
 	return e
 }
